@@ -128,6 +128,11 @@ func (c AdditionalProperties) TypeName() bytes.Bytes {
 }
 
 func (c AdditionalProperties) IsEqual(c2 AdditionalProperties) bool {
+	// "false" and "true"/"any" both leave schemaType and typeName empty: whether
+	// additional properties are allowed at all is part of the value.
+	if (c.mode == AdditionalPropertiesNotAllowed) != (c2.mode == AdditionalPropertiesNotAllowed) {
+		return false
+	}
 	return c.schemaType == c2.schemaType && c.typeName.String() == c2.typeName.String()
 }
 
